@@ -530,6 +530,32 @@ VF_ENUM(split_points, 9 * 8 * 4, 9 * 8 * 60) {
   ctx.nontrivial(std::to_string(idx));
 }
 
+// The whole exchange trickles in: every piece the transport hands over has the same small size p (1, 2, 3, 5, 7, 11, 15 - all below the
+// 16-octet IV and below the tag length -, 16, 17, 31), with a receive call after every piece or only after every third one.  A single
+// split (above) is always followed by one large piece, which hides state that is only updated when a read returns "enough" bytes.
+static const size_t PIECES[] = {1, 2, 3, 5, 7, 11, 15, 16, 17, 31}; static const size_t NPIECES = 10;
+VF_ENUM(uniform_piece_sizes, 9 * 10 * 3, 9 * 10 * 24) {
+  size_t idx = ctx.c.raw(), ci = idx % NCFG, pi = (idx / NCFG) % NPIECES, v = idx / (NCFG * NPIECES);
+  Cfg cfg = enum_cfg(ci); cfg.keyvar = (int)(v % 2); cfg.blocking_fds = cfg.sel && (v & 2);
+  std::vector<Z> msgs = enum_msgs(v); bool array_style = (v % 3) == 2; size_t p = PIECES[pi], gap = (v % 2) ? 3 : 1;
+  Sim sim(ctx, cfg); sim.array_style = array_style; sim.drain_arr = msgs.size();
+  Link &l = sim.L(0, 1); size_t arr = array_style ? msgs.size() : 0;
+  if (array_style) sim.send(l, msgs, true, msgs_desc(msgs)); else for (auto &m : msgs) sim.send(l, std::vector<Z>(1, m), false, S(m));
+  size_t T = l.pending, pieces = 0;
+  while (l.pending && !ctx.failed) {
+    sim.feed_op(l, std::min(p, l.pending), true); pieces++;
+    if (pieces % gap == 0) { size_t sched = (pieces % 3 == 0) ? S_RR : (pieces % 3 == 1) ? S_DIR : S_RND; sim.recv_op(1, sched, 0, arr); }
+  }
+  // every byte has been handed over in small pieces: the receiver must now deliver everything without further input
+  for (size_t e = 0, q = 0; e < 3 && q < 4 * (msgs.size() + 4) && !ctx.failed; q++) { size_t b = sim.ndelivered; sim.recv_op(1, q % 2 ? S_RR : S_DIR, 0, arr); e = sim.ndelivered == b ? e + 1 : 0; }
+  if (!ctx.failed) sim.finish();
+  sim.close_all();
+  ctx.count("pieces_handed_over", (int64_t)pieces);
+  ctx.label(std::string("ep:") + cfg.ep()); ctx.label(std::string("mode:") + MODE_NAME[cfg.mode]); ctx.label("piece=" + std::to_string(p)); ctx.label(array_style ? "receive:array" : "receive:scalar");
+  ctx.desc << cfg.ep() << "/" << MODE_NAME[cfg.mode] << " msgs=" << msgs_desc(msgs) << " wire=" << T << " bytes in pieces of " << p << ", receive after every " << gap << " piece(s)";
+  ctx.nontrivial(std::to_string(idx));
+}
+
 // Every catalogue fault at every byte offset / frame of a short exchange, on a fresh link (first frame carries
 // sequence number 1) and on an established link (one integer delivered before the fault).
 static const size_t FAULT_B = 16;
